@@ -137,9 +137,13 @@ func (p *c13H3Peer) serveStream(str quic.Stream) {
 				for _, hf := range hfs {
 					att.fields = append(att.fields, c13Field{hf.Name, hf.Value})
 				}
+				att.live = p.liveFor(att.fields)
 			}
 		case 0x0: // DATA
 			att.payload += string(payload)
+			if att.live != nil {
+				att.live.gotUpload(len(payload))
+			}
 		}
 	}
 	if !gotHeaders {
@@ -151,6 +155,16 @@ func (p *c13H3Peer) serveStream(str quic.Stream) {
 		out = append(out, c13H3Frame(0x1, c13QpackBlock(blk))...)
 	}
 	out = append(out, c13H3Frame(0x1, c13QpackBlock(resp.fields))...)
+	if att.live != nil {
+		// interactive download: one DATA frame per piece, the next only after the caller read the previous
+		str.Write(out)
+		for j, piece := range att.live.down {
+			str.Write(c13H3Frame(0x0, []byte(piece)))
+			att.live.waitRead(j)
+		}
+		str.Close()
+		return
+	}
 	data := resp.wire
 	n := resp.pieces
 	if n < 1 {
@@ -193,10 +207,11 @@ func TestVerif_C13_e2eh3(t *testing.T) {
 	defer peer.close()
 	mk := func() *Client { return c13H3Client(t) }
 	base := "https://" + peer.ln.Addr().String()
-	flows := []string{"single", "single", "single", "retry", "redirect"}
+	flows := []string{"single", "single", "single", "retry", "redirect", "single", "head"}
 	features := []string{"", "", "", "1xx", "long", "many", "trailer", "empty-value"}
 	n := verifh.N(100, 2500)
 	reqAsync := verifh.N(2, 40)
+	flatSeq, fileBudget := 0, verifh.N(6, 80)
 	var pend []*c13Pending
 	for c := 0; c < n; c++ {
 		flow := flows[c%len(flows)]
@@ -207,6 +222,7 @@ func TestVerif_C13_e2eh3(t *testing.T) {
 			budget = new(int) // a pair belongs to one finding only: no request-level async where the HTTP/3 body dump is involved
 		}
 		cfg, level, subset := c13GenCfg(s, c, budget, sc)
+		c13GFlat(t, s, cnt, c, &flatSeq, &fileBudget, &cfg, sc)
 		timeout := 5 * time.Second
 		margin := 3 * time.Second
 		if cfg.rq != nil && cfg.rq.async {
@@ -246,7 +262,7 @@ func TestVerif_C13_e2eh3(t *testing.T) {
 		}
 	}
 	c13Finish(t, s, pend)
-	for _, must := range []string{"flow=retry", "flow=redirect", "feature=long", "feature=many", "feature=1xx", "level=both", "req-body-via-reader", "baseline-ok-h3"} {
+	for _, must := range []string{"flow=retry", "flow=redirect", "feature=long", "feature=many", "feature=1xx", "level=both", "req-body-via-reader", "req-body-via-multipart", "flow=head", "baseline-ok-h3", "via-each-request", "via-dump-all-to-file", "via-dump-to-file"} {
 		if cnt[must] == 0 {
 			t.Errorf("generator never reached bucket %q", must)
 		}
